@@ -208,7 +208,7 @@ PROPS = {
         ],
     },
     "C06": {
-        "units": ["schedule", "x509time", "renew", "storage"],
+        "units": ["schedule", "x509time", "renew", "storage", "config"],
         "design_ref": "DESIGN.md section 5 C06",
         "technique": "Verus function contracts: saturating-time arithmetic against spec functions; request shim requires the scheduled wait",
         "text": "Deductive proof that schedule_renewal answers 'now' when a file is missing or an identifier is not covered, and otherwise "
